@@ -339,7 +339,7 @@ def runSh (ws : List String) : String :=
   -- `st=N`: the flow inside `$( )` ends with a command of exit status N, which becomes `$?`
   let stTxt := match kv ws "st" with
     | some n => s!" st={n}"
-    | none => ""
+    | none => if kvNat ws "neg" != 0 then " st=1" else ""   -- `! pipeline`: success becomes 1
   let seed := kvNat ws "seed"
   let emitted := if emitsNewline src then p ++ [10] else p
   let model := do
@@ -631,7 +631,7 @@ def rdPayload (n bad : Nat) : List UInt8 :=
   let body : List UInt8 := (List.range n).map fun i =>
     if i = n / 2 ∧ bad = 1 then 255 else if i = n / 2 ∧ bad = 3 then 0 else if i = n / 2 ∧ bad = 4 then 92
     else UInt8.ofNat (alpha 97 i 7)
-  if bad = 2 then body ++ [0xE6] else if bad = 5 then body else body ++ [10]
+  if bad = 2 then body ++ [0xE6] else if bad = 5 then body else if bad = 6 then body ++ [92] else body ++ [10]
 
 def runRd (ws : List String) : String :=
   let p := rdPayload (kvNat ws "n") (kvNat ws "bad")
